@@ -171,6 +171,11 @@ def run_case(case: dict) -> dict:
                     viols.append(core.viol("frozen value changed with state/time", None, name=k, at0=float(a0[k]), later=float(got[k]), spec=spec))
             # sensitivity: would a recomputation at (st,t) have given something else?
             sensitive = sensitive or _recompute_differs(ref, st, t)
+            # derivatives over a table of states: computed coefficients follow every row's own state and time
+            st_b = rm.random_state(ref, rng)
+            tab = pd.DataFrame([st, st_b], index=[t, t + 1.25])
+            model.get_right_hand_side_time_course(args=model.get_args_time_course(tab))
+            counters["right-hand sides over a table of states"] = counters.get("right-hand sides over a table of states", 0) + 1
             # the supplied state is a row the model handed out (variables together with the derived quantities and rates that
             # were computed from them), with a variable edited and another time asked for: everything that is not frozen is
             # recomputed from the variables supplied (the contracts compare with the reference at those variables)
